@@ -17,6 +17,8 @@ import ClarabelProofs.Lemmas.InfoPresolveUser
 import ClarabelProofs.Lemmas.InfoRollback
 import ClarabelProofs.Props.C02Full
 import ClarabelProofs.Props.C02NS
+import ClarabelProofs.Props.C02Total
+import ClarabelProofs.Props.C02NSTotal
 
 namespace Clarabel.C02
 open Clarabel.Dense Clarabel.Info Finset
